@@ -149,6 +149,24 @@ func consumers(c *explore.Ctx, doc []byte) {
 		rerr := stdjson.Unmarshal(d, &b)
 		verdict(c, "Unmarshal(&any)", doc, serr, rerr)
 	})
+	guard("Unmarshal(values reached through interfaces)", func() {
+		// the depth limit and the syntax checks carry through values that interfaces hold or point to
+		type namedAny interface{}
+		mk := func() []any {
+			var inner []any
+			return []any{new([]namedAny), &struct{ X any }{X: &inner}, new(namedAny), &struct{ X namedAny }{}}
+		}
+		segT, stdT := mk(), mk()
+		for i := range segT {
+			in := d
+			if i == 1 || i == 3 {
+				in = append(append([]byte(`{"X":`), d...), '}')
+			}
+			serr := json.Unmarshal(in, segT[i])
+			rerr := stdjson.Unmarshal(in, stdT[i])
+			verdict(c, fmt.Sprintf("Unmarshal(through interface #%d)", i), doc, serr, rerr)
+		}
+	})
 	wrap := func(site, pre, post string, mk func() any) {
 		guard(site, func() {
 			text := []byte(pre + string(d) + post)
